@@ -328,12 +328,12 @@ S!(c03_step_stave_none, 3, scan_step(64, 74, 3, true, false, false, false, false
 //@ bounds: first call (P = 0) with the statistics channel, no filter, payload skipped: run trigger type / data format / system id of the first RDH sent once; RDHSeen/PayloadSize/link/FEE id equal the ground truth
 S!(c14_step_stats_first, 2, scan_step(74, 80, 0, true, false, true, false, true, true));
 //@ harness: c14_step_stats_same_fee props=C14 tier=quick class=functional covers=1 mem=24 timeout=2400 est=400 args=-Z,restrict-vtable
-//@ bounds: mid-stream call with a link filter; the skipped first packet and the delivered second packet carry the SAME FEE id on DIFFERENT links: both links are observed, the FEE id once
+//@ bounds: mid-stream call with a link filter, payloads skipped; the filter-skipped first packet and the delivered second packet carry the SAME FEE id on DIFFERENT links: both links are observed, the FEE id once
 S!(c14_step_stats_same_fee, 2, {
     let mut d = stream2(74, 80, false, true);
     d[2] = FEE_A as u8;
     d[3] = (FEE_A >> 8) as u8; // first packet: link B, FEE A
-    scan_step_d(d, 74, 80, 1, false, false, false, true, true, false)
+    scan_step_d(d, 74, 80, 1, true, false, false, true, true, false)
 });
 //@ harness: c14_step_stats_filter props=C14 also=C03 tier=thorough class=functional covers=1 mem=28 timeout=2400 est=400 args=-Z,restrict-vtable
 //@ bounds: mid-stream call with a link filter, first packet skipped: RDHSeen counts both visited packets, RDHFiltered the delivered one, both links observed
@@ -474,22 +474,28 @@ S!(c18_trunc_rdh, 2, {
     trunc_at(&d, 74, 63);
     kani::cover!(d[70] == 0x77, "arbitrary payload byte");
 });
-//@ harness: c18_trunc_payload props=C18 also=C03,C04 tier=quick class=functional covers=1 mem=20 timeout=1500 est=150 args=-Z,restrict-vtable
-//@ bounds: same stream cut inside the payload (cuts 64 and 73): RDH delivered with empty payload + exactly one [E100]
-S!(c18_trunc_payload, 2, {
+//@ harness: c18_trunc_payload_first props=C18 also=C03,C04 tier=quick class=functional covers=1 mem=24 timeout=1500 est=200 args=-Z,restrict-vtable
+//@ bounds: same stream cut right after the RDH (64): RDH delivered with empty payload + exactly one [E100]
+S!(c18_trunc_payload_first, 2, {
     let d = trunc_stream();
     trunc_at(&d, 74, 64);
+    kani::cover!(d[70] == 0x77, "arbitrary payload byte");
+});
+//@ harness: c18_trunc_payload_last props=C18 also=C03,C04 tier=quick class=functional covers=1 mem=24 timeout=1500 est=200 args=-Z,restrict-vtable
+//@ bounds: same stream cut at the last payload byte (73): RDH delivered with empty payload + exactly one [E100]
+S!(c18_trunc_payload_last, 2, {
+    let d = trunc_stream();
     trunc_at(&d, 74, 73);
     kani::cover!(d[70] == 0x77, "arbitrary payload byte");
 });
-//@ harness: c18_trunc_boundary props=C18 also=C03,C04 tier=quick class=functional covers=1 mem=20 timeout=1800 est=300 args=-Z,restrict-vtable
+//@ harness: c18_trunc_boundary props=C18 also=C03,C04 tier=quick class=functional covers=1 mem=30 timeout=1800 est=300 args=-Z,restrict-vtable
 //@ bounds: same stream cut exactly at the packet boundary (74): the complete packet is delivered unchanged with no error; the next call ends the scan
 S!(c18_trunc_boundary, 2, {
     let d = trunc_stream();
     trunc_at(&d, 74, 74);
     kani::cover!(d[70] == 0x77, "arbitrary payload byte");
 });
-//@ harness: c18_trunc_next_rdh props=C18 also=C03,C04 tier=quick class=functional covers=1 mem=20 timeout=1800 est=300 args=-Z,restrict-vtable
+//@ harness: c18_trunc_next_rdh props=C18 also=C03,C04 tier=quick class=functional covers=1 mem=30 timeout=1800 est=300 args=-Z,restrict-vtable
 //@ bounds: same stream cut inside the following RDH (84): the complete packet is delivered unchanged with no error; the partial next RDH ends the scan
 S!(c18_trunc_next_rdh, 2, {
     let d = trunc_stream();
